@@ -76,6 +76,26 @@ int main (int argc, char** argv)
       }
     });
 
+#ifndef SYMX_SYMBOLIC
+  // rounding: the forms are bilinear, so scaling A by 2^e and B by 2^f scales every entry by 2^(e+f) exactly
+  // (no over/underflow at these exponents); and the defining formula at mixed magnitudes
+  symx::fn ("mink_scales_plain", [] {
+    Stokes<double> A (1.75, 0.5, -0.25, 1.125), B (0.875, -1.5, 0.75, 0.0625);
+    Matrix<4,4,double> M0 = Minkowski::outer (A, B); double i0 = Minkowski::inner (A, B);
+    for (int e : { -300, -150, -40, 40, 150, 300 }) for (int f : { -300, -40, 0, 40, 300 }) { double sa = std::ldexp (1.0, e), sb = std::ldexp (1.0, f), sab = std::ldexp (1.0, e + f);
+      Stokes<double> As = A; As *= sa; Stokes<double> Bs = B; Bs *= sb; char what[200];
+      snprintf (what, 200, "inner (2^%d A, 2^%d B) = 2^%d inner (A, B), exactly", e, f, e + f); symx::expect_true (what, Minkowski::inner (As, Bs) == i0 * sab);
+      Matrix<4,4,double> M = Minkowski::outer (As, Bs); bool ok = true; for (unsigned i=0; i<4; i++) for (unsigned j=0; j<4; j++) ok = ok && M[i][j] == M0[i][j] * sab;
+      snprintf (what, 200, "outer (2^%d A, 2^%d B) = 2^%d outer (A, B), exactly", e, f, e + f); symx::expect_true (what, ok); }
+    const double vals[][4] = { {1e150, 1e-150, 3, -2}, {1, 1e-8, 1e-16, 0}, {1e-200, 1e-200, 0, 1e-200}, {5, -5, 0, 0}, {0, 0, 0, 0}, {2, 0, 0, 0} };
+    for (auto& a : vals) for (auto& b : vals) { Stokes<double> P (a[0], a[1], a[2], a[3]), Q (b[0], b[1], b[2], b[3]); Matrix<4,4,double> M = Minkowski::outer (P, Q), N = Minkowski::outer (Q, P); char what[240];
+      double in = a[0]*b[0] - a[1]*b[1] - a[2]*b[2] - a[3]*b[3];
+      for (unsigned i=0; i<4; i++) for (unsigned j=0; j<4; j++) { double eta = i == j ? (i == 0 ? 1.0 : -1.0) : 0.0; double w = a[i]*b[j] - 0.5 * eta * in;
+        snprintf (what, 240, "outer(A,B)[%u][%u] = A_i B_j - eta_ij inner/2 for A = (%g,%g,%g,%g), B = (%g,%g,%g,%g)", i, j, a[0],a[1],a[2],a[3], b[0],b[1],b[2],b[3]);
+        symx::expect_true (what, std::fabs (M[i][j] - w) <= 1e-15 * (std::fabs (a[i]*b[j]) + std::fabs (in)) + 0.0);
+        snprintf (what, 240, "outer(A,B)^T = outer(B,A) at [%u][%u] for A = (%g,%g,%g,%g), B = (%g,%g,%g,%g)", i, j, a[0],a[1],a[2],a[3], b[0],b[1],b[2],b[3]); symx::expect_true (what, M[i][j] == N[j][i]); } }
+  }, 1);
+#endif
   symx::finish ();
   return 0;
 }
